@@ -409,6 +409,20 @@ func histConfig(g *pkgGen, i int) *genOut {
 		&files.Content{Source: "src/e", Destination: "", Type: "tree"},
 		&files.Content{Source: "src/lnk2", Destination: fmt.Sprintf("/opt/hist%d/through-two-links", i), Type: "tree"},
 		&files.Content{Source: "src/f2", Destination: fmt.Sprintf("/opt/hist%d/up/../down/f2", i)})
+	// destinations below directories some distributions turn into links (/sbin, /lib): what one format makes of them is its own
+	c.Contents = append(c.Contents, &files.Content{Source: "src/f1", Destination: fmt.Sprintf("/sbin/hist%d-tool", i)},
+		&files.Content{Source: "src/f2", Destination: fmt.Sprintf("/lib/hist%d/plugin.so", i), FileInfo: &files.ContentFileInfo{Mode: 0o755, Owner: "root", Group: "root"}})
+	// an override block whose contents name the destination of a top-level entry with other attributes
+	if i%3 == 2 {
+		f := allFormats[i%len(allFormats)]
+		ov := c.Overrides[f]
+		if ov == nil {
+			ov = &nfpm.Overridables{}
+			c.Overrides[f] = ov
+		}
+		ov.Contents = append(ov.Contents, &files.Content{Source: "src/f2", Destination: fmt.Sprintf("/lib/hist%d/plugin.so", i), FileInfo: &files.ContentFileInfo{Mode: 0o750, Owner: "root", Group: "wheel"}},
+			&files.Content{Source: "src/f1", Destination: fmt.Sprintf("/usr/bin/hist%d-only-here", i)})
+	}
 	// a symbolic link with every file_info field configured whose target exists on the build host (planning looks at
 	// the target: whatever it learns belongs to the build, not to the parsed configuration)
 	if i%3 != 1 {
